@@ -15,6 +15,16 @@ from ..splice import AnchorLost
 from .l3 import Program
 
 CORPUS = os.path.join(VERIF, 'corpus')
+PATHS: Dict[str, str] = {}        # program label -> absolute path (this run)
+
+
+def rel_of(path: str, seed: int) -> str:
+    if path.startswith(VERIF + os.sep):
+        r = os.path.relpath(path, VERIF)
+    else:
+        r = 'generated:seed%d/%s' % (seed, '/'.join(path.split(os.sep)[-2:]))
+    PATHS[r] = path
+    return r
 
 
 def corpus_programs(tier: str) -> List[str]:
@@ -24,16 +34,22 @@ def corpus_programs(tier: str) -> List[str]:
                   if f.endswith('.wsdl') or (f.endswith('.xsd') and not any(g.endswith('.wsdl') for g in glob.glob(os.path.join(d, '*')))
                                              and os.path.basename(f) in ('main.xsd',) or (f.endswith('.xsd') and len(glob.glob(os.path.join(d, '*'))) == 1))]
         out += starts[:1]
-    if tier == 'thorough':
-        for d in sorted(glob.glob(os.path.join(CORPUS, 'gen', '*'))):
-            s = sorted(glob.glob(os.path.join(d, 'main.*')))
-            out += s[:1]
     return out
+
+
+def generated_programs(tier: str, seed: int) -> List[str]:
+    """random schema sets inside the subset (vp/l3/gen.py), deterministic in the seed; written to the scratch directory"""
+    from ..l3 import gen
+    n = int(os.environ.get('VERIF_GEN', '0') or 0) or (3 if tier == 'quick' else 45)
+    root = os.path.join(scratch(), 'gen')
+    if os.path.isdir(root):
+        return sorted(glob.glob(os.path.join(root, 'g*', 'main.*')))
+    return gen.generate(root, seed, n)
 
 
 def run_concern(pid: str, tier: str, seed: int, runs=None) -> dict:
     t0 = time.time()
-    progs = corpus_programs(tier)
+    progs = corpus_programs(tier) + generated_programs(tier, seed)
     wsdl_only = pid == 'C05'
     models: Dict[str, M.Model] = {}
     skipped = []
@@ -48,19 +64,19 @@ def run_concern(pid: str, tier: str, seed: int, runs=None) -> dict:
                 continue
             models[p] = m
         except M.Unsupported as e:
-            skipped.append(f'{os.path.relpath(p, VERIF)}: outside the subset ({e})')
+            skipped.append(f'{rel_of(p, seed)}: outside the subset ({e})')
     gen = l3gen.generate(list(models), REPO)
     res = {'obligations': [], 'failures': [], 'coverage': {}, 'trusted_base': [], 'back_end': ''}
     units: List[Program] = []
     samples = []
     for p, m in models.items():
         g = gen[p]
-        rel = os.path.relpath(p, VERIF)
+        rel = rel_of(p, seed)
         if g['status'] != 'OK':
             # the generator rejected / crashed on a schema of the supported subset: reported under C13's scope, skipped here
             skipped.append(f'{rel}: generator did not produce output ({g["status"]} {g["msg"][:120]})')
             continue
-        name = 'L3_' + os.path.basename(os.path.dirname(p)) + '_' + pid
+        name = 'L3_' + os.path.basename(os.path.dirname(p)) + ('s%d' % seed if not p.startswith(VERIF + os.sep) else '') + '_' + pid
         units.append(Program(name, p, g['out'], m, pid))
 
     def one(u: Program) -> UnitRun:
@@ -69,7 +85,7 @@ def run_concern(pid: str, tier: str, seed: int, runs=None) -> dict:
         except Disagreement as e:
             ur = UnitRun(u.name, 'failed')
             f = Failure(u.name, f'index:{os.path.basename(u.schema)}#{e.what[:80]}', 'emitted code disagrees with the schema: ' + e.what,
-                        [{'file': 'schema:' + os.path.relpath(u.schema, VERIF), 'line': 0, 'text': e.what, 'what': ''}], e.detail, props=[e.prop if e.prop == pid else pid])
+                        [{'file': 'schema:' + rel_of(u.schema, seed), 'line': 0, 'text': e.what, 'what': ''}], e.detail, props=[e.prop if e.prop == pid else pid])
             ur.failures = [f]
             ur.obligations = [f.obligation]
             return ur
@@ -83,7 +99,7 @@ def run_concern(pid: str, tier: str, seed: int, runs=None) -> dict:
     nprog = 0
     solver_ms = 0
     for u, ur in zip(units, urs):
-        rel = os.path.relpath(u.schema, VERIF)
+        rel = rel_of(u.schema, seed)
         if ur.status == 'skipped':
             skipped.append(f'{rel}: {ur.reason}')
             continue
